@@ -33,7 +33,8 @@ def const_value(k):
 class Rec:
     """Expression recovery for one function body."""
 
-    def __init__(self, fn, db=None, depth=40):
+    def __init__(self, fn, db=None, depth=40, keep_names=False):
+        self.keep_names = keep_names
         self.fn = fn
         self.db = db
         self.defs = fn.defs()
@@ -74,6 +75,8 @@ class Rec:
                     r = self.call(x, depth + 1)
                 else:
                     r = self.rvalue(x, depth + 1)
+                if self.keep_names and self.fn.local_name(l):
+                    r = ('named', self.fn.local_name(l), r)
         self._memo[key] = r
         return r
 
@@ -199,7 +202,14 @@ def short_const(p):
     return short(p)
 
 
+def names_in(e):
+    """User variable names met while inlining (only with Rec(keep_names=True))."""
+    return [x[1] for x in walk(e) if x[0] == 'named']
+
+
 def deref(e):
+    if e[0] == 'named':
+        return ('named', e[1], deref(e[2]))
     if e[0] == 'ref':
         return e[1]
     return ('deref', e)
@@ -212,6 +222,8 @@ def ref(e):
 
 
 def field(e, name, idx):
+    if e[0] == 'named':
+        return field(e[2], name, idx)
     # (next(&it) as Some).0  ->  element of the iteration
     if e[0] == 'down' and e[2] == 'Some' and e[1][0] == 'next' and idx == 0:
         return ('elem', e[1][1], e[1][2])
@@ -272,6 +284,8 @@ def _show(e):
         return f'({_show(e[1])} as {e[2]})'
     if t == 'discr':
         return f'discr({_show(e[1])})'
+    if t == 'named':
+        return f'{e[1]}={_show(e[2])}'
     if t == 'next':
         return f'next#{e[2]}({_show(e[1])})'
     if t == 'elem':
@@ -330,6 +344,8 @@ def is_ident_call(name):
 def canon(e):
     """Canonical string of an expression used as an atom: transparent to refs/derefs/int casts/as_ref."""
     t = e[0]
+    if t == 'named':
+        return canon(e[2])
     if t in ('ref', 'deref'):
         return canon(e[1])
     if t == 'cast':
@@ -378,6 +394,8 @@ def canon(e):
 def lin(e):
     """Linear form dict atom->Fraction ('' = constant). Non-linear sub-terms become atoms."""
     t = e[0]
+    if t == 'named':
+        return lin(e[2])
     if t in ('ref', 'deref'):
         return lin(e[1])
     if t == 'cast' and (e[3] == 'IntToInt'):
